@@ -165,7 +165,7 @@ func (cc *clientCxn) run() {
 			cc.cs.l.Tracef("client %d at %s terminated", cc.cs.id, cc.cxn.RemoteAddr().String())
 			return
 		case csWaitForCommand:
-			if cc.closing {
+			if cc.IsCloseRequested() {
 				cc.queueStateChange(csTerminate, nil)
 			} else {
 				cc.onWaitForCommand()
